@@ -1,7 +1,8 @@
 """C06 - upgrade handshake."""
 FUNCTIONS = ['socket.Socket._websocket_handler', 'socket.Socket._upgrade_websocket',
              'socket.Socket.handle_get_request']
-FUNCTIONS += ['server.Server.handle_request', 'server.Server._handle_connect']
+FUNCTIONS += ['server.Server.handle_request', 'server.Server._handle_connect',
+              'async_server.AsyncServer.handle_request', 'async_server.AsyncServer._handle_connect']
 FUNCTIONS += ['async_socket.AsyncSocket._websocket_handler', 'async_socket.AsyncSocket._upgrade_websocket',
               'async_socket.AsyncSocket.handle_get_request']
 
